@@ -493,6 +493,28 @@ pub fn check(prop: &str, tier: Tier) -> i32 {
         }
         exit = 1;
     }
+    // batch-level statistical verdicts (success rate against a floor far below the baseline)
+    let info = (p.info)();
+    let mut floor_report = vec![];
+    for (name, floor, min_n) in &info.floors {
+        let ok = agg.probes.get(&format!("stat_{name}_ok")).copied().unwrap_or(0);
+        let fail = agg.probes.get(&format!("stat_{name}_fail")).copied().unwrap_or(0);
+        let n = ok + fail;
+        let rate = if n > 0 { ok as f64 / n as f64 } else { 1.0 };
+        floor_report.push(json!({"statistic": name, "ok": ok, "fail": fail, "rate": rate, "floor": floor, "min_samples": min_n, "judged": n >= *min_n}));
+        if n >= *min_n && rate < *floor {
+            let mut r = Report::default();
+            r.violation = Some(props::Violation {
+                class: "success-rate-below-floor".into(),
+                key: format!("{name}-below-floor"),
+                detail: format!("{name}: {ok} of {n} runs succeeded ({rate:.3}), floor {floor}"),
+            });
+            let path = write_replay(prop, base, tier, &[], &r, "-floor");
+            println!("VIOLATION property={prop} replay={}", path.display());
+            replay_paths.push(path.display().to_string());
+            exit = 1;
+        }
+    }
     let harness_problem = !agg.harness_errors.is_empty() || !mismatches.is_empty() || agg.evaluations == 0;
     if harness_problem && exit == 0 {
         for e in agg.harness_errors.iter().take(3) {
@@ -505,7 +527,6 @@ pub fn check(prop: &str, tier: Tier) -> i32 {
     }
 
     let wall = t0.elapsed().as_secs_f64();
-    let info = (p.info)();
     let evidence = json!({
         "property_id": prop,
         "tier": tier.name(),
@@ -524,6 +545,7 @@ pub fn check(prop: &str, tier: Tier) -> i32 {
             "faults_fired": agg.faults,
             "probes": agg.probes,
             "determinism": {"reran": reran, "mismatches": mismatches.len()},
+            "statistical_verdicts": floor_report,
             "known_findings_hit": known_hits.iter().map(|(k, v)| json!({"key": k, "runs": v.0})).collect::<Vec<_>>(),
             "replays": replay_paths,
             "components": {
